@@ -21,11 +21,13 @@ type Opts struct {
 	ProbesPerIndex int
 	AnyTable       bool
 	Retain         int             // number of retained snapshots (0 = none)
+	Watches        int             // number of retained watch channels (0 = none)
 	Iterators      bool            // change iterators + GC interplay (needs a started DB; run inside a synctest bubble)
 	Report         map[string]bool // violation classes to report: ret, query, frozen, rev, changes, abort
 	SchemaPick     []int           // indexes into Schemas to choose from (nil = all)
 	AbortPct       int
 	Sleep          func()          // lets virtual time pass (GC rounds); nil = no-op
+	OnSim          func(*Sim) func() // called with each new Sim; the returned function is called when the history ends
 }
 
 type simTable struct {
@@ -59,9 +61,14 @@ type Sim struct {
 	Rng  *rand.Rand
 	O    Opts
 	DB   *statedb.DB
+	Handle string
 	Tabs []*simTable
 
 	snaps   []*snapshot
+	watches []*simWatch
+	txnBefore map[*simWatch]bool
+	txnChanged map[*simTable]bool
+	watchHandouts, watchVerdicts int
 	itx     map[*simTable]*iterTxnState
 	iterSeq int
 	open    statedb.WriteTxn // the write transaction in flight (aborted by Recover)
@@ -392,6 +399,7 @@ func (s *Sim) writeOp(what string, wtxn statedb.WriteTxn, t *simTable, working *
 		had     bool
 		err     error
 		wantErr = "nil"
+		insWatch <-chan struct{}
 		newObj  *Obj // object now stored (nil = none / deleted)
 		changed bool
 		wantOld = cur
@@ -402,7 +410,7 @@ func (s *Sim) writeOp(what string, wtxn statedb.WriteTxn, t *simTable, working *
 		o := s.genObj(t, working, id)
 		if s.Rng.IntN(3) == 0 {
 			opName = "InsertWatch"
-			old, had, _, err = tbl.InsertWatch(wtxn, o)
+			old, had, insWatch, err = tbl.InsertWatch(wtxn, o)
 		} else {
 			opName = "Insert"
 			old, had, err = tbl.Insert(wtxn, o)
@@ -470,6 +478,7 @@ func (s *Sim) writeOp(what string, wtxn statedb.WriteTxn, t *simTable, working *
 		n := len(working.Objs)
 		rev := tbl.Revision(wtxn)
 		for k := range working.Objs {
+			s.noteWatchWrite(what, t, k)
 			s.noteDelete(t, k, working.Rev, rev)
 			delete(working.Objs, k)
 		}
@@ -510,6 +519,10 @@ func (s *Sim) writeOp(what string, wtxn statedb.WriteTxn, t *simTable, working *
 	if rev <= working.Rev {
 		s.Violate("rev", "not-increasing/"+opName, "%s %s.%s: revision %d -> %d is not strictly increasing", what, t.name, opName, working.Rev, rev)
 		return
+	}
+	s.noteWatchWrite(what, t, string(id))
+	if insWatch != nil && s.O.Watches > 0 {
+		s.retainWatch(&simWatch{ch: insWatch, t: t, p: Probe{Index: "id", Kind: "insertwatch", Key: string(id)}, origin: what + " InsertWatch", inTxn: what, isIns: true, insKey: string(id)}, true)
 	}
 	if newObj != nil {
 		s.noteInsert(t, string(id))
@@ -592,7 +605,8 @@ func (s *Sim) RunTxn(i int) {
 	s.Logf("%s WriteTxn(%s)", what, strings.Join(names, ","))
 	wtxn := s.DB.WriteTxn(metas...)
 	s.open = wtxn
-	defer func() { s.open = nil }()
+	s.txnBefore = s.closedStates()
+	defer func() { s.open = nil; s.txnBefore = nil }()
 	working := map[*simTable]*TableModel{}
 	for _, t := range s.Tabs {
 		if inSet[t] {
@@ -618,7 +632,9 @@ func (s *Sim) RunTxn(i int) {
 		case x < 90:
 			s.Logf("%s battery(wtxn) %s", what, t.name)
 			s.battery(what+" in-txn", wtxn, t, working[t], "query")
-		case x < 95 && s.O.Iterators:
+		case x < 93 && s.O.Watches > 0:
+			s.takeWatches(what+" in-txn", wtxn, t, working[t], false, map[bool]string{true: what, false: ""}[inSet[t]])
+		case x < 96 && s.O.Iterators:
 			s.iterOp(what, wtxn, t, inSet[t])
 		default:
 			// another reader while the transaction is pending sees only committed state
@@ -638,6 +654,7 @@ func (s *Sim) RunTxn(i int) {
 		wtxn.Abort()
 		s.aborts++
 		s.abortIterators(what, wtxn)
+		s.watchesAfterAbort(what, s.txnBefore)
 		rt := s.DB.ReadTxn()
 		for _, t := range s.Tabs {
 			s.battery(what+" after-abort", rt, t, t.committed, "abort")
@@ -647,12 +664,17 @@ func (s *Sim) RunTxn(i int) {
 		return
 	}
 	s.Logf("%s Commit", what)
+	s.txnChanged = map[*simTable]bool{}
+	for _, t := range set {
+		s.txnChanged[t] = working[t].Rev != t.committed.Rev
+	}
 	rtxn := wtxn.Commit()
 	s.commits++
 	for _, t := range set {
 		t.committed = working[t]
 	}
 	s.commitIterators(what)
+	s.watchesAfterCommit(what)
 	fresh := s.DB.ReadTxn()
 	for _, t := range s.Tabs {
 		s.battery(what+" commit-snapshot", rtxn, t, t.committed, "query")
@@ -668,13 +690,26 @@ func (s *Sim) RunTxn(i int) {
 	if s.Rng.IntN(3) == 0 {
 		s.finishedHandleOps(what, wtxn, set[0])
 	}
+	if s.O.Watches > 0 {
+		for _, t := range s.Tabs {
+			if s.Rng.IntN(2) == 0 {
+				s.takeWatches(what+" fresh-snapshot", fresh, t, t.committed, true, "")
+			}
+		}
+		if len(s.snaps) > 0 && s.Rng.IntN(3) == 0 {
+			sn := s.snaps[s.Rng.IntN(len(s.snaps))]
+			ti := s.Rng.IntN(len(sn.models))
+			s.takeWatches(what+" retained-snapshot "+sn.name, sn.txn, s.Tabs[ti], sn.models[ti], false, "")
+		}
+	}
 	s.verifySnapshots(what)
 }
 
 // NewSim creates the database and tables of a history.
 func NewSim(r *vkit.Run, idx int, o Opts) *Sim {
 	s := &Sim{R: r, Idx: idx, Rng: r.Rand(idx), O: o, fp: vkit.NewHash()}
-	s.DB = statedb.New()
+	s.Handle = fmt.Sprintf("sim%d", idx)
+	s.DB = statedb.New().NewHandle(s.Handle)
 	pick := o.SchemaPick
 	if pick == nil {
 		for i := range Schemas {
@@ -703,6 +738,8 @@ func (s *Sim) Finish(nontrivial bool) {
 	s.R.Count("return_value_checks", int64(s.retChecks))
 	s.R.Count("revision_checks", int64(s.revChecks))
 	s.R.Count("change_stream_checks", int64(s.changeChecks))
+	s.R.Count("watch_handouts", int64(s.watchHandouts))
+	s.R.Count("watch_verdicts", int64(s.watchVerdicts))
 	s.R.Count("commits", int64(s.commits))
 	s.R.Count("aborts", int64(s.aborts))
 	if s.R.WantSample() {
@@ -721,6 +758,7 @@ func (s *Sim) RetChecks() int    { return s.retChecks }
 func (s *Sim) RevChecks() int    { return s.revChecks }
 func (s *Sim) ChangeChecks() int { return s.changeChecks }
 func (s *Sim) Commits() int      { return s.commits }
+func (s *Sim) WatchVerdicts() int { return s.watchVerdicts }
 func (s *Sim) Aborts() int       { return s.aborts }
 
 // Recover turns a panic inside the history into a violation of class "panic" (always reported).
